@@ -14,10 +14,10 @@ class C03(Property):
     theorems_note = ("per-operation refinement of the structural specification (first/last child, next/previous sibling with and without "
                      "tokens, indexed lookups, child iterators), parent_child, preorder walks are well nested and visit every element once, "
                      "iterator size reports are exact, token walk enumerates all tokens left to right (after the fixes of F2/F3); "
-                     "refuted variants for the pre-fix code")
+                     "refuted variants for the pre-fix code; token navigation: first_token / last_token = first / last token position below the element in document order, next_token / prev_token = successor / predecessor in the document order of ALL tokens of the tree (tokens_split: before ++ own ++ after = all), elements without tokens are passed over; first_token_unfixed_refuted (the behaviour before F3)")
     assumptions = [
-        "the Resolved* API is tied by correspondence (every case is run through the plain and through the resolved API) and by the "
-        "extracted forwarder table; it is not modelled separately",
+        "the Resolved* API is tied by correspondence only (every case is run through the plain and through the resolved API); "
+        "it is not modelled separately",
     ]
     nontrivial_rule = ("(tree, element, operation) triples: every navigation method from every element of every small tree, through the "
                        "plain and the resolved API; non-trivial = the tree contains an empty node or a zero-length token, or the program "
